@@ -876,6 +876,19 @@ class Gen:
             return ("assign", n, None, ("switch", arms, els))
         if c == 26 and d > 0 and self.profile in ("fn", "all") and self.fn_depth < 2:
             return self.fn_def(d)
+        if c == 28:
+            # a composite expression whose value is discarded (statement position); operands cannot fail
+            atom = lambda: ("id", self.pick(self.vars["int"])) if self.chance(1, 2) else ("int", self.r.below(9))
+            return self.pick([
+                ("interp", [self.pick(["a", "", "x="]), atom(), self.pick(["", "!", " b"])]),
+                ("interp", [atom(), "-", atom()]),
+                ("list", [atom(), ("interp", ["q", atom()])]),
+                ("tuple", [atom(), atom()]),
+                ("map", [("k0", atom()), ("k1", ("interp", [atom(), "z"]))]),
+                ("cmp", atom(), [("<", atom()), ("<=", atom())]),
+                ("and", atom(), ("interp", ["s", atom()])),
+                ("range", atom(), atom(), False),
+            ])
         n = self.fresh("any")
         e = ("assign", n, None, self.any_expr(d))
         self.declare(n, "any")
